@@ -47,11 +47,11 @@ What is proved here about the model (Model.Lexer, Model.Parser, Model.Actions ov
   * `line_comment_followed_by_newline` (kernel decision over Gen.Defs / Gen.Rules) — in every definition a LineComment /
     BlockComment token is immediately followed by the Newline marker, and in every rule set that prints comments this
     marker alone is handled by a handler that unconditionally emits the line terminator, no combined key can start at it.
-  * `comment_carriers_print_comments_partial` + `case_block_drops_comments` — every node kind that can carry comments
-    prints them first, EXCEPT CaseBlock, whose definition has no CommentsAttr (finding KF-13c: the negation is proved).
+  * `comment_carriers_print_comments` — every node kind that can carry comments prints them first (full strength since the
+    repair of KF-13c, c0fc1f7: CaseBlock has a CommentsAttr; `fixed_kf13c_case_block_prints_comments`).
   * `restricted_production_split_witness` (KF-13a, kernel evaluation of parser model + printer model + reference parser):
     `function f(){return /*x*/ 1}` prints as `return /*x*/⏎1;`, which the reference reads as `return; 1;`.
-    `case_block_comment_not_printed_witness`: KF-13c evaluated on the models.
+    `fixed_kf13c_witness`: the former KF-13c witness evaluated on the models (the comment is printed).
 -/
 import CalmVerif.Proofs.CommentsParser
 import CalmVerif.Proofs.CommentsFull
@@ -327,14 +327,16 @@ theorem line_comment_followed_by_newline :
 def carriers : List String :=
   carrierKinds Gen.Tables.Cached.numTerminals Gen.Tables.Cached.prods Gen.Actions.actions
 
-/-- D (partial): every node kind that can carry comments prints them before anything else — except CaseBlock -/
-theorem comment_carriers_print_comments_partial :
-    carriers.all (fun k => k == "CaseBlock" || printsCommentsFirst Gen.Defs.definitions k) = true := by
+/-- D: every node kind that can carry comments prints them before anything else (no exception since c0fc1f7) -/
+theorem comment_carriers_print_comments :
+    carriers.all (fun k => printsCommentsFirst Gen.Defs.definitions k) = true := by
   decide +kernel
 
-/-- D (negation witness, finding KF-13c): CaseBlock can carry comments and its definition does not print them -/
-theorem case_block_drops_comments :
-    carriers.contains "CaseBlock" = true ∧ printsCommentsFirst Gen.Defs.definitions "CaseBlock" = false := by
+/-- D (repaired finding KF-13c): CaseBlock can carry comments and its definition prints them first; the list of carriers
+    is not empty (non-vacuity of `comment_carriers_print_comments`) -/
+theorem fixed_kf13c_case_block_prints_comments :
+    carriers.contains "CaseBlock" = true ∧ printsCommentsFirst Gen.Defs.definitions "CaseBlock" = true ∧
+    carriers ≠ [] := by
   decide +kernel
 
 /-- D (negation witness, finding KF-13a): the comment of the operand of `return` is printed with the Newline of its
@@ -346,11 +348,11 @@ theorem restricted_production_split_witness :
     specBodyLen "function f(){return /*x*/ 1}" = some 1 := by
   decide +kernel
 
-/-- D (witness of KF-13c on the models): the comment before the `{` of a switch body is attached by the parser and is not
-    in the printed text -/
-theorem case_block_comment_not_printed_witness :
+/-- D (the former witness of KF-13c on the models): the comment before the `{` of a switch body is attached by the parser
+    and is in the printed text -/
+theorem fixed_kf13c_witness :
     (accTree (Parser.parse "switch(a)/*c*/{}".toList true)).map hasComments = some true ∧
-    printedWithComments "switch(a)/*c*/{}" = some "switch (a) {\n}\n" := by
+    printedWithComments "switch(a)/*c*/{}" = some "switch (a) /*c*/\n{\n}\n" := by
   decide +kernel
 
 end CalmVerif.Props.C13
